@@ -150,11 +150,12 @@ fn gen(r: &mut Rng, idx: u64) -> Scenario {
             }
         }
         1 => {
-            let w = match r.below(5) {
+            let w = match r.below(6) {
                 0 => None,
                 1 => Some(Cond::Cmp(Op::Ge, Expr::Col(0), lit(r.range(10, 70)))),
                 2 => Some(eqc(Expr::Col(0), r.range(1, 6) * 10)), // primary-key fast path
                 3 => Some(eqc(Expr::Col(0), 999)),                // zero rows
+                4 => Some(Cond::Val(Expr::Col(1))),               // WHERE C1: selects the rows whose C1 is not 0
                 _ => Some(Cond::IsNull(Expr::Col(2))),
             };
             // children of some rows
@@ -175,11 +176,12 @@ fn gen(r: &mut Rng, idx: u64) -> Scenario {
             kind = "delete";
         }
         _ => {
-            let w = match r.below(5) {
+            let w = match r.below(6) {
                 0 => None,
                 1 => Some(Cond::Cmp(Op::Ge, Expr::Col(0), lit(r.range(10, 70)))),
                 2 => Some(eqc(Expr::Col(0), r.range(1, 6) * 10)),
                 3 => Some(eqc(Expr::Col(0), 999)),
+                4 => Some(Cond::Val(Expr::Col(2))), // WHERE C2: not 0 and not NULL
                 _ => Some(Cond::Not(Box::new(Cond::IsNull(Expr::Col(3))))),
             };
             let asg = match r.below(6) {
@@ -301,7 +303,7 @@ fn affected_rows(sc: &Scenario, ran: &Ran) -> Option<Vec<(Option<Row>, Option<Ro
                 let en = Env { cur: Some(row), old: None, new: None };
                 let sel = match w {
                     None => true,
-                    Some(c) => eval_cond(&en, c)? == Some(true),
+                    Some(c) => where_selects(&en, c)?,
                 };
                 if sel {
                     let mut new = row.clone();
@@ -319,7 +321,7 @@ fn affected_rows(sc: &Scenario, ran: &Ran) -> Option<Vec<(Option<Row>, Option<Ro
                 let en = Env { cur: Some(row), old: None, new: None };
                 let sel = match w {
                     None => true,
-                    Some(c) => matches!(eval_cond(&en, c), Some(Some(true))),
+                    Some(c) => where_selects(&en, c) == Some(true),
                 };
                 if sel {
                     out.push((Some(row.clone()), None));
@@ -412,8 +414,8 @@ fn main() {
     let mut sum = Summary::default();
     sum.nontrivial_rule = "a case is (tables, set-up rows, 1-6 trigger definitions, one DML statement) with the audit table's rows before/after; distinct = distinct printed case; non-trivial = at least one enabled trigger is defined on the statement's table for the statement's event (so the firing list or its emptiness is decided by gating, not by the absence of triggers)".into();
     let mut log = CaseLog::new(&args);
-    let n_cases: u64 = if args.thorough { 20000 } else { 2400 };
-    let per_shard = 150;
+    let n_cases: u64 = if args.thorough { 20000 } else { 2000 };
+    let per_shard = 125;
     let mut shard_text: Vec<String> = Vec::new();
     let mut shard_k = 0usize;
     for id in 0..n_cases {
